@@ -152,4 +152,47 @@ theorem soloTrace_unlocked (cs : List (Choice K V)) (g : G K V) (l : L K V) (t :
       cases l.pc <;> simp <;> (try split) <;> simp
 
 
+/-! ### Range: the visitor is handed every entry of the snapshot; it is invoked (outside any lock) for the unexpired
+ones until it returns false -/
+
+/-- actions of a `Range` over the snapshot: one visit per entry handed over, up to and including the one at which the
+user's visitor stops the traversal -/
+def rangeEvs (now : Int) (f : K → V → Bool) : List (K × Item V) → List (Ev K V)
+  | [] => []
+  | (k, i) :: rest =>
+    if Gen.item_expiredWithNow i.e now then .visit k :: rangeEvs now f rest
+    else if f k i.v then .visit k :: rangeEvs now f rest else [.visit k]
+
+theorem rangeEvs_unlocked (now : Int) (f : K → V → Bool) (l : List (K × Item V)) : Ev.calledLocked ∉ rangeEvs now f l := by
+  induction l with
+  | nil => simp [rangeEvs]
+  | cons p l ih =>
+    obtain ⟨k, i⟩ := p
+    unfold rangeEvs
+    split
+    · simp [ih]
+    · split <;> simp [ih]
+
+/-- traced version of `DeepCache.loop_walk` -/
+theorem loop_walk_tr (call : List (Val K V) → W K V → Deep.Res K V) (now : Int) (f : K → V → Bool) (h0 : List (Val K V))
+    (hcall : ∀ k (i : Item V) (w : W K V), w.heap = h0 → w.atomic = false → call [.key k, ofItem i] w =
+      if Gen.item_expiredWithNow i.e now then some ([.bool true], { w with ev := w.ev ++ [.visit k] })
+      else some ([.bool (f k i.v)], { w with visits := w.visits ++ [(k, i.v)], ev := w.ev ++ [.visit k] }))
+    (l : List (K × Item V)) (w : W K V) (hw : w.heap = h0) (ha : w.atomic = false) :
+    loopItems call l w = some { w with visits := w.visits ++ Model.Cache.walk now f l, ev := w.ev ++ rangeEvs now f l } := by
+  induction l generalizing w with
+  | nil => simp [loopItems, Model.Cache.walk, rangeEvs]
+  | cons p l ih =>
+    obtain ⟨k, i⟩ := p
+    simp only [loopItems, hcall k i w hw ha, Model.Cache.walk, rangeEvs]
+    by_cases he : Gen.item_expiredWithNow i.e now
+    · simp only [he, if_true]
+      rw [ih _ (by simpa using hw) (by simpa using ha)]
+      simp
+    · by_cases hf : f k i.v
+      · simp only [he, hf, if_true, Bool.false_eq_true, if_false]
+        rw [ih _ (by simpa using hw) (by simpa using ha)]
+        simp
+      · simp [he, hf]
+
 end DeepTraceCommon
